@@ -43,11 +43,20 @@ def main():
     dp = os.path.join(wt, demo)
     os.rename(dp, dp + '.off')
     suite = []
+    hung = []
     for i in range(2):
-        rc, o, dt = sh('timeout 900 cargo test --workspace --offline 2>&1 | grep -E "^test result|FAILED|failed|error\\[" ', wt)
-        passed = sum(int(l.split('ok. ')[1].split(' passed')[0]) for l in o.splitlines() if l.startswith('test result: ok.'))
-        failed = [l for l in o.splitlines() if 'FAILED' in l or 'error[' in l or ('failed' in l and '0 failed' not in l)]
+        # the suite has wall-clock dependent tests (tests/lib.rs::unpark) that hang on a loaded machine with or without
+        # any change: a run that *hangs* (no failure reported, fewer results than expected) is repeated up to twice and
+        # recorded; a run that reports a failure counts as it is
+        for attempt in range(3):
+            rc, o, dt = sh('timeout 900 cargo test --workspace --offline 2>&1 | grep -E "^test result|FAILED|failed|error\\[" ', wt)
+            passed = sum(int(l.split('ok. ')[1].split(' passed')[0]) for l in o.splitlines() if l.startswith('test result: ok.'))
+            failed = [l for l in o.splitlines() if 'FAILED' in l or 'error[' in l or ('failed' in l and '0 failed' not in l)]
+            if passed >= 300 or failed:
+                break
+            hung.append({'run': i, 'attempt': attempt, 'passed_before_hang': passed, 'wall_s': round(dt, 1)})
         suite.append({'passed': passed, 'failed_lines': failed[:5], 'wall_s': round(dt, 1)})
+    meta['confirmation']['suite_runs_that_hung'] = hung
     os.rename(dp + '.off', dp)
     meta['confirmation']['suite_with_change'] = suite
     # 3. demo with / without
